@@ -132,6 +132,27 @@ class SymVal:
 
     __radd__ = __add__
 
+    def __sub__(self, o):
+        return SymVal(self.t - (o.t if isinstance(o, SymVal) else z3.RealVal(str(o))))
+
+    def __rsub__(self, o):
+        return SymVal((o.t if isinstance(o, SymVal) else z3.RealVal(str(o))) - self.t)
+
+    def __neg__(self):
+        return SymVal(-self.t)
+
+    def __mul__(self, o):
+        if isinstance(o, SymVal):
+            raise HarnessError("product of two symbolic values")
+        return SymVal(self.t * z3.RealVal(str(o)))
+
+    __rmul__ = __mul__
+
+    def __bool__(self):
+        # float truthiness: non-zero (forks)
+        r = simp_bool(self.t != 0)
+        return r if isinstance(r, bool) else pyproxy.engine().decide(r)
+
     def _cmp(self, o, neg):
         ot = o.t if isinstance(o, SymVal) else z3.RealVal(str(o))
         r = simp_bool((self.t != ot) if neg else (self.t == ot))
